@@ -102,7 +102,7 @@ Print Assumptions add_in_doc_order_inv_partial.
    and exactly the inserted nodes *)
 Theorem add_history_partial : forall W d ns l,
   single_document W d ns = true -> single_document W d l = true -> sorted W l = true ->
-  exists r, fold_left (add W) ns (Some l) = Some r /\ r = sort_dedup W (l ++ ns) /\ sorted W r = true /\
+  exists r, fold_left (add_step W) ns (Some l) = Some r /\ r = sort_dedup W (l ++ ns) /\ sorted W r = true /\
             (forall m, In m r <-> In m l \/ In m ns).
 Proof.
   intros W d ns l Hns Hl Hs.
@@ -135,7 +135,7 @@ Definition y1 : lnode := (1, [SC 0]).
 Definition z0 : lnode := (0, [SC 4; SC 0]).
 
 Theorem add_in_doc_order_inv_refuted :
-  exists W ns l, forallb (wvalid W) ns = true /\ fold_left (add W) ns (Some []) = Some l /\
+  exists W ns l, forallb (wvalid W) ns = true /\ fold_left (add_step W) ns (Some []) = Some l /\
                  groupedb (map fst l) = false /\ nodupb l = false.
 Proof. exists W2, [x0; y1; z0; x0], [x0; y1; x0; z0]. vm_compute. repeat split. Qed.
 Print Assumptions add_in_doc_order_inv_refuted.
